@@ -107,7 +107,9 @@ class extract_visitor(NodeVisitor):
             eend = get_expr_end(node)
         name = node.target
         if isinstance(name, Attribute):
-            self.top.add_attr_assign(self.flow.scope, name, node.value)  # type: ignore[arg-type]  # TODO
+            if node.value:
+                # (a bare 'self.x: int' assigns nothing)
+                self.top.add_attr_assign(self.flow.scope, name, node.value)  # type: ignore[arg-type]  # TODO
         elif isinstance(name, UNSUPPORTED_ASSIGMENTS):
             pass
         elif node.value:
